@@ -28,6 +28,8 @@ def run(rep, tier):
     c14.k2(rep, M)
     from . import c14_k1
     c14_k1.k1(rep, M)
+    from . import common as _common
+    _common.guarded(rep, "C14.K1b", c14_k1.k1b, rep, M)
     ix = common.index(rep)
     c10_2(rep, ix)
     c10_3(rep, ix)
